@@ -54,6 +54,11 @@ impl Reorg {
   pub(crate) fn handle_reorg(index: &Index, height: u32, depth: u32) -> Result {
     log::info!("rolling back database after reorg of depth {depth} at height {height}");
 
+    #[cfg(feature = "verif")]
+    if !super::verif::knobs::take_rollback() {
+      bail!("verif: rollback budget exhausted");
+    }
+
     if let redb::Durability::None = index.durability {
       panic!("set index durability to `Durability::Immediate` to test reorg handling");
     }
